@@ -254,7 +254,9 @@ def cases_from_conn(conn, tag, have=("recession", "rise")):
         if smp is None or len(smp) > 60:
             continue
         crossings = sum(1 for u, w in zip(smp, smp[1:]) if min(u[1], w[1]) <= n * D < max(u[1], w[1]))
-        if crossings == 1:
+        # a sample within one fixed-point unit of the level: whether the real value lies above or below it
+        # (and so how many crossings there are) is not recoverable at this resolution -- row not judged
+        if crossings == 1 and all(abs(u[1] - n * D) > 1 for u in smp):
             rows.append({"start": idx(e), "n": n, "v": int(round(v / dt * 100))})
     rng.shuffle(rows)
     prov = [{"id": "%s step=%g recession" % (tag, step), "kind": "recession", "D": D, "K": 100,
@@ -311,6 +313,10 @@ def c13(chk, tier):
         c = prov[0]
         chk.sample({"case": c["id"], "owners": c["owners"][:2], "rows": c["rows"][:4], "grid": c["grid"]})
     _report(chk, fails, prov + fprov, meta, "C13")
+    if not q:
+        # the repository's own tests: the curve tables they leave behind
+        from . import testtrace as TT
+        TT.judge(chk, ("C13",), k_expr="test_rise or test_recession", parts=("curves",))
 
 
 def stationarity_on_tables(chk, tier):
@@ -338,6 +344,9 @@ def stationarity_on_tables(chk, tier):
         c = fstat[0]
         chk.sample({"case": c["id"], "intervals": len(c["intervals"]), "levels": len(c["levels"]), "first_level": c["levels"][0]})
     _report(chk, fails, stat + fstat, meta, "C05")
+    if not q:
+        from . import testtrace as TT
+        TT.judge(chk, ("C05",), k_expr="test_rise or test_recession", parts=("curves",))
 
 
 def _report(chk, fails, cases, meta, prefix):
